@@ -367,9 +367,12 @@ impl ObjFileFormat for TextFormat {
                         );
 
                     // Display!
-                    writeln!(buf, "{LABEL:1$}{0}{INDEX:2$}", TABLE_DIV, label_col, index_col)?;
+                    // The label column is padded by hand: a runtime format width cannot exceed u16::MAX,
+                    // and a label can be longer than that.
+                    let pad = |s: &str| " ".repeat(label_col.saturating_sub(s.chars().count()));
+                    writeln!(buf, "{LABEL}{1}{0}{INDEX:2$}", TABLE_DIV, pad(LABEL), index_col)?;
                     for (label, index) in entries {
-                        writeln!(buf, "{label:1$}{0}{index:2$}", TABLE_DIV, label_col, index_col)?;
+                        writeln!(buf, "{label}{1}{0}{index:2$}", TABLE_DIV, pad(label), index_col)?;
                     }
                 }
                 writeln!(buf, "====================")?;
